@@ -150,6 +150,18 @@ def exec (a : List String) : String :=
     match chars? h with
     | none => "BAD-UTF8"
     | some s => s!"{hexOfChars (streamStringValue rev (srcStyleOf st) s)} REREAD-OK"
+  | ["sbl", _doc, ind, st, h] =>
+    match chars? h with
+    | none => "BAD-UTF8"
+    | some s =>
+      let k := streamIndentWidth (parseNat ind)
+      match blockScalarDecision k k s with
+      | none =>
+        if st == "f" then hexOfChars (streamSmartQuoted rev s)
+        else s!"{hexOfChars (streamSmartQuoted rev s)} REREAD-OK"
+      | some e =>
+        if st == "f" then hexOfChars (streamBlockFoldedHeader e s)
+        else s!"{hexOfChars (streamBlockLiteral k e s)} REREAD-OK"
   | ["ind", n] =>
     let n := parseNat n
     s!"dom={domIndentWidth rev n} stream={streamIndentWidth n}"
